@@ -601,4 +601,143 @@ theorem written_flatMap_mapEv (evs : List (Ev (List UInt8))) :
     | wrote bs => simp [mapEv, written]
 
 end
+
+/-! ## end of stream as an input (`In`, `atEOF`, `stepIn`, `runIn`, `decodeStreamEOF`) -/
+
+section
+variable {M : Type} (de : List UInt8 → Option M) (rl : Int)
+
+theorem runIn_cons (s : RState) (i : In) (is : List In) :
+    runIn de rl s (i :: is) =
+      ((stepIn de rl s i).2 ++ (runIn de rl (stepIn de rl s i).1 is).1,
+       (runIn de rl (stepIn de rl s i).1 is).2) := rfl
+
+/-- The extended machine is conservative: on inputs that are all bytes it IS the byte machine. -/
+theorem runIn_bytes (s : RState) (bs : List UInt8) :
+    runIn de rl s (bs.map In.byte) = run de rl s bs := by
+  induction bs generalizing s with
+  | nil => rfl
+  | cons b bs ih =>
+    simp only [List.map_cons, runIn_cons, stepIn, ih, run_cons]
+
+theorem runIn_append (s : RState) (a b : List In) :
+    runIn de rl s (a ++ b) =
+      ((runIn de rl s a).1 ++ (runIn de rl (runIn de rl s a).2 b).1,
+       (runIn de rl (runIn de rl s a).2 b).2) := by
+  induction a generalizing s with
+  | nil => simp [runIn]
+  | cons x xs ih =>
+    simp only [List.cons_append, runIn_cons]
+    rw [ih]
+    simp [List.append_assoc]
+
+theorem atEOF_closed (why : CloseReason) : atEOF (.closed why) = .closed why := rfl
+
+/-- Whatever the state, after the end of the stream the goroutine has returned. -/
+theorem atEOF_isClosed (s : RState) : (atEOF s).isClosed = true := by
+  cases s <;> rfl
+
+theorem atEOF_idem (s : RState) : atEOF (atEOF s) = atEOF s := by
+  cases s <;> rfl
+
+/-- The reason after the end of the stream: the reader's own, if it had closed already;
+    otherwise `eof`, flagged with "inside a frame". -/
+theorem atEOF_eq (s : RState) :
+    atEOF s = match s with
+      | .closed why => .closed why
+      | s => .closed (.eof s.inFrame) := by
+  cases s <;> rfl
+
+theorem atEOF_of_not_closed (s : RState) (h : s.isClosed = false) :
+    atEOF s = .closed (.eof s.inFrame) := by
+  cases s <;> first | rfl | cases h
+
+/-- A closed reader ignores every input, the end of the stream included. -/
+theorem runIn_closed (why : CloseReason) (is : List In) :
+    runIn de rl (.closed why) is = ([], .closed why) := by
+  induction is with
+  | nil => rfl
+  | cons i is ih =>
+    cases i with
+    | byte b => simp [runIn, stepIn, step, ih]
+    | eof => simp [runIn, stepIn, atEOF, ih]
+
+/-- Bytes, then the end of the stream: the events of the bytes, nothing more; the final state
+    is `atEOF` of where the bytes left the reader. -/
+theorem runIn_bytes_eof (s : RState) (bs : List UInt8) :
+    runIn de rl s (bs.map In.byte ++ [In.eof]) = ((run de rl s bs).1, atEOF (run de rl s bs).2) := by
+  rw [runIn_append, runIn_bytes]
+  simp [runIn, stepIn]
+
+/-- Nothing after the end of the stream is read. -/
+theorem runIn_eof_cons (s : RState) (is : List In) :
+    runIn de rl s (In.eof :: is) = ([], atEOF s) := by
+  rw [runIn_cons]
+  simp only [stepIn, List.nil_append]
+  have h := atEOF_isClosed s
+  cases hs : atEOF s with
+  | closed why => rw [runIn_closed]
+  | _ => rw [hs] at h; cases h
+
+theorem decodeStreamEOF_eq (bs : List UInt8) :
+    decodeStreamEOF de rl bs = ((decodeStream de rl bs).1, atEOF (decodeStream de rl bs).2) :=
+  runIn_bytes_eof de rl .hdr0 bs
+
+/-- The reader has seen the end of the stream. -/
+def RState.sawEOF : RState → Bool
+  | .closed (.eof _) => true
+  | _ => false
+
+theorem onHeader_not_sawEOF (h0 l0 l1 l2 : UInt8) :
+    (onHeader de rl h0 l0 l1 l2).1.sawEOF = false := by
+  unfold onHeader
+  generalize Gen.bytesToInt [l0, l1, l2] = len
+  generalize Gen.readerCase (Gen.frameType h0) = k
+  by_cases ho : Gen.recvOversize len rl = true
+  · simp only [if_pos ho]; rfl
+  · cases k with
+    | msg =>
+      by_cases hz : len.toNat = 0
+      · simp only [if_neg ho, if_pos hz, onPayload_eq]; rfl
+      · simp only [if_neg ho, if_neg hz]; rfl
+    | ping =>
+      simp only [if_neg ho, onPing_eq]
+      by_cases hz : len.toNat = 0
+      · rw [if_pos hz]; rfl
+      · rw [if_neg hz]; rfl
+    | pong =>
+      simp only [if_neg ho]
+      by_cases hz : len.toNat = 0
+      · rw [if_pos hz]; rfl
+      · rw [if_neg hz]; rfl
+    | reserved => simp only [if_neg ho]; rfl
+    | fallthroughNil => simp only [if_neg ho]; rfl
+
+/-- Bytes never make the reader "see" an end of stream: only the `eof` input does. -/
+theorem step_sawEOF (s : RState) (b : UInt8) : (step de rl s b).1.sawEOF = s.sawEOF := by
+  cases s with
+  | hdr3 h0 l0 l1 => rw [step_hdr3]; exact onHeader_not_sawEOF de rl h0 l0 l1 b
+  | body n acc =>
+    cases n with
+    | zero =>
+      have : step de rl (.body 0 acc) b = onPayload de (b :: acc).reverse := rfl
+      rw [this, onPayload_eq]; rfl
+    | succ n => rfl
+  | pbody _ _ _ n _ => cases n <;> rfl
+  | echo n => cases n <;> rfl
+  | discard n => cases n <;> rfl
+  | hdr0 => rfl
+  | hdr1 _ => rfl
+  | hdr2 _ _ => rfl
+  | closed _ => rfl
+
+theorem run_sawEOF (s : RState) (bs : List UInt8) : (run de rl s bs).2.sawEOF = s.sawEOF := by
+  induction bs generalizing s with
+  | nil => rfl
+  | cons b bs ih => rw [run_cons]; simp only [ih, step_sawEOF]
+
+theorem decodeStream_not_sawEOF (bs : List UInt8) : (decodeStream de rl bs).2.sawEOF = false :=
+  run_sawEOF de rl .hdr0 bs
+
+end
 end Nexus.Frame
